@@ -156,6 +156,39 @@ def run(repo, rep, tier):
     vals = {norm(pw2.get(k)) for k in ('lower', 'upper', 'estimate')}
     rep.check(len(vals) == 1, 'R1/column-algebra', 'fixed-cost branch: difference == observed cost with degenerate bounds', f.qualname, 'difference %s' % sorted(vals),
               'the fixed-cost pointwise difference has different lower/estimate/upper: %s' % sorted(vals), f.loc(pn2.ast))
+  un2, cu2 = pick('cumulative_effect_df', False)
+  if cu2 and pw2:
+    vals2 = {norm(cu2.get(k)) for k in ('lower', 'upper', 'estimate')}
+    est2 = rd.expand(un2, cu2['estimate'], keep=('experiment_dates', 'dates'))[0]
+    t2 = norm(est2)
+    src = norm(rd.expand(pn2, pw2['estimate'], keep=('experiment_dates', 'dates'))[0])     # the pointwise series, e.g. tmp['cost']
+    base_col = re.fullmatch(r"(.+)\[(.+)\]", src)
+    ok2 = False
+    if base_col:
+      fr, col = base_col.group(1), base_col.group(2)
+      forms = ["np.cumsum(%s.loc[%s['date'].isin(experiment_dates), %s])" % (fr, fr, col),
+               "%s.loc[%s['date'].isin(experiment_dates), %s].cumsum()" % (fr, fr, col),
+               "np.cumsum(%s[%s][%s['date'].isin(experiment_dates)])" % (fr, col, fr),
+               "%s[%s][%s['date'].isin(experiment_dates)].cumsum()" % (fr, col, fr)]
+      ok2 = t2 in forms
+    if ok2 and len(vals2) == 1:
+      rep.ok('R1/column-algebra', 'fixed-cost branch: cumulative = running total of the observed cost over the experiment dates (degenerate bounds)', loc=f.loc(un2.ast))
+    elif len(vals2) != 1:
+      rep.violation('R1/column-algebra', f.qualname, 'fixed-cost cumulative %s' % sorted(vals2),
+                    'the fixed-cost cumulative series has different lower/estimate/upper: %s' % sorted(vals2), f.loc(un2.ast))
+    else:
+      # a running total over a different set of dates is recognised; anything else is left undecided
+      masks = re.findall(r"\.isin\((\w+)\)|\.loc\[(\w+)\]", t2)
+      other = [a or b for a, b in masks if (a or b) not in ('experiment_dates',)]
+      single = re.findall(r"== self\.periods\.(\w+)", t2)
+      if single and not other:
+        other = ['the %s period only' % '/'.join(sorted(set(single)))]
+      if 'cumsum' in t2 and other:
+        rep.violation('R1/column-algebra', f.qualname, 'fixed-cost cumulative = %s' % t2[:160],
+                      'the fixed-cost cumulative series accumulates the observed cost over `%s` instead of all experiment dates (test and cooldown): on the last date it no longer equals the incremental cost'
+                      % ', '.join(other), f.loc(un2.ast))
+      else:
+        rep.undecided('R1/column-algebra', 'fixed-cost cumulative', 'not recognised as the running total of the pointwise series over experiment_dates: %s' % t2[:120], f.loc(un2.ast))
   # R3
   def sites(ctx_, rd_, reach):
     out = []
